@@ -17,6 +17,8 @@ structure OSt where
   prev : ISnap := {}
   /-- handle → session uid of live `ReservedSession`s -/
   rsv : List (Nat × Nat) := []
+  /-- handles whose handshake called `complete()` and still waits for its last acknowledgement -/
+  cpl : List Nat := []
   /-- live `Exchange` handles -/
   exh : List Nat := []
   /-- the previous op was a positive time step -/
@@ -24,9 +26,118 @@ structure OSt where
   /-- the previous op was the closer answering `none` -/
   closerIdle : Bool := false
 
+
+/-! ### system-level oracle (`sys` cases: a real device, real initiators, virtual time)
+Written from the property text; looks only at what the harness read from the REAL tables at
+quiescence and at the outcome of the probe handshakes. -/
+
+structure SysSt where
+  /-- sessions in use put into the table (`pin`) -/
+  pinned : Nat := 0
+  /-- the script contained traffic before the current `quiesce` -/
+  traffic : Bool := false
+  /-- index and text of ops whose task had not ended when the harness stopped -/
+  pending : List String := []
+  /-- the last `quiesce` ran long enough for every time-out to fire -/
+  settled : Bool := false
+deriving Inhabited
+
+def kvOf (ws : List String) (k : String) : String :=
+  match ws.find? (·.startsWith (k ++ "=")) with
+  | some w => (w.drop (k.length + 1)).toString
+  | none => ""
+
+def kvNat (ws : List String) (k : String) : Nat := (kvOf ws k).toNat?.getD 0
+
+/-- every time-out of the device has fired after this much silence: receive time-out of a handler
+(≈ 40 s with the default retry ladders), PASE in-progress marker 60 s, accept deadline 1 s -/
+def settleMs : Nat := 120000
+
+def sysQuiesce (s : SysSt) (rw : List String) : Option String :=
+  let z (k : String) (what : String) : Option String :=
+    if kvNat rw k != 0 then some s!"quiescent, but {what} ({k}={kvOf rw k})" else none
+  let pin := kvOf rw "pinned"
+  let first (l : List (Option String)) : Option String := l.findSome? id
+  first [
+    (match s.pending with
+      | p :: _ => some s!"quiescent, but a task never ended (hang): '{p}'"
+      | [] => none),
+    z "resv" "a session slot is still reserved by a handshake that is over",
+    z "xo" "an exchange slot outside the sessions in use is still owned",
+    z "xd" "a dropped exchange was never closed",
+    z "xp" "an exchange nobody accepted is still pending",
+    z "px" "a session in use carries an exchange slot nobody owns",
+    (match pin.splitOn "/" with
+      | [a, b] => if a != b then some s!"a session that carries a live exchange was evicted or removed (in use: {b}, left: {a})" else none
+      | _ => some "BAD pinned"),
+    (if (kvOf rw "marker").endsWith "L" then some "quiescent, but the PASE in-progress marker still blocks new initiators" else none),
+    z "rx" "the receive slot is still occupied",
+    z "tx" "the transmit slot is still occupied",
+    (if kvOf rw "rdv" != "ii" then some s!"an mDNS rendezvous slot was not released after its waiter timed out or was cancelled (rdv={kvOf rw "rdv"})" else none),
+    (if kvOf rw "c1" != "0:0" || kvOf rw "c2" != "0:0" then
+       some s!"an initiator node still holds a reserved session or an exchange slot (c1={kvOf rw "c1"} c2={kvOf rw "c2"})" else none),
+    (if kvNat rw "sess" > Consts.maxSessions then some "more sessions than the table holds" else none)
+  ]
+
+def sysProbe (s : SysSt) (w rw : List String) : Option String :=
+  let att := (kvOf rw "att").splitOn "," |>.filter (· != "")
+  let okk := (rw.headD "").startsWith "ok@"
+  let pin := kvOf rw "pinned"
+  let pinBad : Option String := match pin.splitOn "/" with
+    | [a, b] => if a != b then some s!"a session that carries a live exchange was evicted to make room (in use: {b}, left: {a})" else none
+    | _ => some "BAD pinned"
+  -- an attempt ends in success or is answered busy; anything else leaves the initiator without an answer
+  let badAtt := att.find? (fun a => a != "ok" && a != "busy")
+  let pase := w.getD 1 "" = "pase"
+  if pase && kvNat rw "win" = 0 then pinBad else
+  match pinBad with
+  | some v => some v
+  | none =>
+    match badAtt with
+    | some a => some s!"table full: a legitimate handshake attempt was neither completed nor answered busy ({a})"
+    | none =>
+      if s.pinned ≥ Consts.maxSessions then
+        (if okk then some "a handshake succeeded although every session slot is in use" else none)
+      else if !okk then
+        some s!"{Consts.maxSessions - s.pinned} session slot(s) are idle or free, yet a legitimate handshake did not succeed ({kvOf rw "att"})"
+      else if kvNat rw "new" = 0 then some "the handshake reported success but the device has no new session"
+      else none
+
+def sysStep (s : SysSt) (w : List String) (res : String) : SysSt × String :=
+  let rw := words res
+  let head := w.getD 0 ""
+  let v (s : SysSt) (o : Option String) : SysSt × String :=
+    match o with
+    | some why => (s, s!"ORA {why}")
+    | none => (s, "ok")
+  if res = "panic" then (s, "ORA the device (or a controller) panicked") else
+  match head with
+  | "pin" => v { s with pinned := s.pinned + (rw.getD 1 "0").toNat?.getD 0 } none
+  | "idl" => v s none
+  | "ini" | "junk" | "rdv" =>
+    let s := { s with traffic := true }
+    if (rw.headD "") = "pending" then v { s with pending := (" ".intercalate w) :: s.pending } none else v s none
+  | "race" =>
+    let s := { s with traffic := true }
+    if (rw.headD "") = "pending" then v { s with pending := (" ".intercalate w) :: s.pending } none
+    else if (rw.headD "") != "ok" then v s none
+    else if kvNat rw "held" < 2 then v s none
+    else if kvNat rw "snf" != 0 then
+      v s (some "the device answered the first message on a session it had just confirmed with SessionNotFound (session still reserved while the handshake waits for its last acknowledgement)")
+    else if kvOf rw "first" != "acked" then v s (some "the first message on the new session was never acknowledged")
+    else v s none
+  | "quiesce" =>
+    let ms := (w.getD 1 "0").toNat?.getD 0
+    let settled := ms ≥ settleMs || !s.traffic
+    let s' := { s with settled := settled, traffic := false, pending := [] }
+    if settled then v s' (sysQuiesce s rw) else v s' none
+  | "probe" => if s.settled then v s (sysProbe s w rw) else v s none
+  | _ => (s, "BAD sys op")
+
 structure St where
   m : MSt := {}
   o : OSt := {}
+  sys : Option SysSt := none
 
 def idle (s : ISess) : Bool := !s.reserved && s.live.isEmpty
 
@@ -50,6 +161,17 @@ def oracle (o : OSt) (w : List String) (res : String) (snap : ISnap) : OSt × Op
         (o, if res = "dup-handle" || res = "bad" then none
             else if full then (if res = "err NoSpaceSessions" then none else some s!"table full but reserve answered '{res}'")
             else some s!"table not full but reserve answered '{res}'")
+    | "cpl" =>
+      match hnum (w.getD 1 "") with
+      | some h =>
+        match o.rsv.find? (·.1 == h) with
+        | some (_, uid) =>
+          ({ o with cpl := h :: o.cpl },
+            if (snap.sess uid).any (·.reserved) then
+              some s!"session {uid} is still reserved after its handshake completed it: the peer's first message would not find it"
+            else none)
+        | none => (o, none)
+      | none => (o, none)
     | "cmp" | "drp" =>
       if res = "panic" then
         (o, some s!"dropping the handshake's session handle panicked ({op}): the node goes down")
@@ -58,9 +180,9 @@ def oracle (o : OSt) (w : List String) (res : String) (snap : ISnap) : OSt × Op
       | some h =>
         match o.rsv.find? (·.1 == h) with
         | some (_, uid) =>
-          let o' := { o with rsv := o.rsv.filter (·.1 != h) }
+          let o' := { o with rsv := o.rsv.filter (·.1 != h), cpl := o.cpl.filter (· != h) }
           if (o.prev.sess uid).isNone then (o', none)   -- the session was removed under the handle (eviction / rm)
-          else if op = "drp" then
+          else if op = "drp" && !o.cpl.contains h then
             (o', if (snap.sess uid).isSome then some s!"abandoned handshake: reserved session {uid} not released" else none)
           else
             (o', match snap.sess uid with
@@ -113,8 +235,12 @@ def oracle (o : OSt) (w : List String) (res : String) (snap : ISnap) : OSt × Op
 def step (st : St) (line : String) : St × String :=
   let (op, out) := splitArrow line
   match words op with
-  | "case" :: _ :: kind => ({ m := newCase kind }, "case")
+  | "case" :: _ :: kind =>
+    ({ m := newCase kind, sys := if kind.head? = some "sys" then some {} else none }, "case")
   | w =>
+    match st.sys with
+    | some ss => let (ss', o) := sysStep ss w out; ({ st with sys := some ss' }, o)
+    | none =>
     let (res, snapS) := splitHash out
     let (m', dis) := modelStep st.m op out
     let (o', ora) := if st.m.isMrp then (st.o, none) else oracle st.o w res (parseSnap snapS)
